@@ -60,12 +60,12 @@ theorem cleanupPart_cbs (sid : Sid) (f : F) : (cleanupPart sid f).2.filter isCb 
 /-- T5, shape of one close: the callbacks of the fan-out are the global callback (if installed), then every observer registered
 when the global callback returned, in registration order, each once, then the cleanup of the user data present after the last
 observer returned - whatever the callbacks themselves do (observe / unobserve / setSessionData). -/
-theorem closeFan_shape (sid : Sid) (f : F) (hp : sid ∉ f.pending) :
+theorem closeFan_shape (sid : Sid) (f : F) :
     (closeFan sid f).2.filter isCb =
       (if f.hasGlobal then [Out.global sid] else []) ++ ((globalPart sid f).1.observers sid).map (Out.observer sid) ++
       cleanupOf sid (observerPart sid (globalPart sid f).1).1 := by
   unfold closeFan
-  simp only [hp, if_false, List.filter_append, globalPart_cbs, observerPart_cbs, cleanupPart_cbs]
+  simp only [List.filter_append, globalPart_cbs, observerPart_cbs, cleanupPart_cbs]
 
 
 /-! ## a second close of the same session notifies nobody again -/
@@ -83,14 +83,14 @@ theorem notify_nil (sid : Sid) (snap : List Obs) (f : F) (h : f.inside = []) :
 
 /-- without re-entrant callbacks: one close calls global, observers (registration order), cleanup; the session's observers and
 user data are gone afterwards, so a second close would reach the global callback only. -/
-theorem closeFan_once (sid : Sid) (f : F) (hp : sid ∉ f.pending) (hi : f.inside = []) :
+theorem closeFan_once (sid : Sid) (f : F) (hi : f.inside = []) :
     (closeFan sid (closeFan sid f).1).2 = if f.hasGlobal then [Out.global sid] else [] := by
   have hg : globalPart sid f = (f, if f.hasGlobal then [Out.global sid] else []) := by
     unfold globalPart; split <;> simp [runInside_nil _ f hi]
-  have e1 : (closeFan sid f).1.pending = f.pending ∧ (closeFan sid f).1.inside = [] ∧
+  have e1 : (closeFan sid f).1.inside = [] ∧
       (closeFan sid f).1.hasGlobal = f.hasGlobal ∧ (closeFan sid f).1.observers sid = [] ∧ (closeFan sid f).1.data sid = none := by
     unfold closeFan
-    simp only [hp, if_false, hg]
+    simp only [hg]
     unfold observerPart
     rw [notify_nil _ _ _ (by simpa using hi)]
     unfold cleanupPart
@@ -101,13 +101,12 @@ theorem closeFan_once (sid : Sid) (f : F) (hp : sid ∉ f.pending) (hi : f.insid
       split
       · rw [runInside_nil _ _ (by simpa using hi)]; simp [hi, updL, updO]
       · simp [hi, updL, updO]
-  obtain ⟨h1, h2, h3, h4, h5⟩ := e1
-  generalize (closeFan sid f).1 = f' at h1 h2 h3 h4 h5 ⊢
-  have hp' : sid ∉ f'.pending := by rw [h1]; exact hp
+  obtain ⟨h2, h3, h4, h5⟩ := e1
+  generalize (closeFan sid f).1 = f' at h2 h3 h4 h5 ⊢
   have hg' : globalPart sid f' = (f', if f.hasGlobal then [Out.global sid] else []) := by
     unfold globalPart; rw [h3]; split <;> simp [runInside_nil _ _ h2]
   unfold closeFan
-  simp only [hp', if_false, hg']
+  simp only [hg']
   unfold observerPart
   rw [h4]
   simp only [notify]
@@ -275,21 +274,19 @@ theorem finv_observerPart (sid : Sid) {f : F} (h : FInv f) : FInv (observerPart 
 
 theorem finv_closeFan (sid : Sid) {f : F} (h : FInv f) : FInv (closeFan sid f).1 := by
   unfold closeFan
+  have h1 : FInv (globalPart sid f).1 := by
+    unfold globalPart; split
+    · exact finv_runInside _ h
+    · exact h
+  have h2 := finv_observerPart sid h1
+  dsimp only
+  unfold cleanupPart
   split
-  · exact finv_frame h rfl rfl rfl
-  · have h1 : FInv (globalPart sid f).1 := by
-      unfold globalPart; split
-      · exact finv_runInside _ h
-      · exact h
-    have h2 := finv_observerPart sid h1
-    dsimp only
-    unfold cleanupPart
+  · exact h2
+  · dsimp only
     split
-    · exact h2
-    · dsimp only
-      split
-      · exact finv_runInside _ (finv_frame h2 rfl rfl rfl)
-      · exact finv_frame h2 rfl rfl rfl
+    · exact finv_runInside _ (finv_frame h2 rfl rfl rfl)
+    · exact finv_frame h2 rfl rfl rfl
 
 theorem finv_step (op : Op) {f : F} (h : FInv f) : FInv (step f op).1 := by
   cases op with
